@@ -137,9 +137,37 @@ pub fn gen_and_run<G: AffineRepr>(curve: &str, ci: u64, seed: u64, tier: &str) -
                     }));
                     hint_ok = rr.unwrap_or(9);
                 }
+                // the other Iterator entry points (nth, skip, step_by) must list the same sequence
+                let mut iter_ok = 1;
+                if n <= cap && m <= pcap {
+                    let rr = catch_unwind(AssertUnwindSafe(|| {
+                        let full: Vec<G> = g.H(n, m).copied().collect();
+                        let len = full.len();
+                        for a in 0..=len.min(3) {
+                            for k in [0usize, 1, 2, n, n + 1, 2 * n + 1] {
+                                let mut it = g.H(n, m);
+                                for _ in 0..a { it.next(); }
+                                if it.nth(k).copied() != full.get(a + k).copied() { return 0; }
+                                if a + k < len && it.next().copied() != full.get(a + k + 1).copied() { return 0; }
+                            }
+                        }
+                        for sk in [1usize, n, n + 1] {
+                            let v: Vec<G> = g.H(n, m).skip(sk).take(len + 2).copied().collect();
+                            if v != full.iter().skip(sk).copied().collect::<Vec<G>>() { return 0; }
+                        }
+                        let v: Vec<G> = g.H(n, m).step_by(2).take(len + 2).copied().collect();
+                        if v != full.iter().step_by(2).copied().collect::<Vec<G>>() { return 0; }
+                        let v: Vec<G> = g.G(n, m).step_by(3).take(len + 2).copied().collect();
+                        let fg: Vec<G> = g.G(n, m).copied().collect();
+                        if v != fg.iter().step_by(3).copied().collect::<Vec<G>>() { return 0; }
+                        if g.G(n, m).last().copied() != fg.last().copied() || g.G(n, m).count() != fg.len() { return 0; }
+                        1
+                    }));
+                    iter_ok = rr.unwrap_or(9);
+                }
                 let obs = match r {
-                    Ok(v) => format!("{} 2 {}\n{} 93 {}\n", id, v.iter().map(|x| x.to_string()).collect::<Vec<_>>().join(" "), id, hint_ok),
-                    Err(_) => format!("{} 2 9\n{} 93 {}\n", id, id, hint_ok),
+                    Ok(v) => format!("{} 2 {}\n{} 93 {} {}\n", id, v.iter().map(|x| x.to_string()).collect::<Vec<_>>().join(" "), id, hint_ok, iter_ok),
+                    Err(_) => format!("{} 2 9\n{} 93 {} {}\n", id, id, hint_ok, iter_ok),
                 };
                 outs.push(Out {
                     id: id.clone(),
